@@ -138,10 +138,12 @@ func (g *gen) group(base, gi int) {
 	name := fmt.Sprintf("group%d", gi)
 	nm := 0
 	if gi == 1 {
-		nm = g.choose(site+"name", "valid", "missing", "empty", "int", "null", "dup-key", "list", "same-as-first")
+		nm = g.choose(site+"name", "valid", "missing", "empty", "int", "null", "dup-key", "list", "same-as-first", "valid-after-rules")
 	} else {
-		nm = g.choose(site+"name", "valid", "missing", "empty", "int", "null", "dup-key", "list")
+		nm = g.choose(site+"name", "valid", "missing", "empty", "int", "null", "dup-key", "list", "valid-after-rules")
 	}
+	// key order is free in YAML: the name may come after the rules
+	nameLate := (gi == 1 && nm == 8) || (gi != 1 && nm == 7)
 	switch nm {
 	case 0:
 		item("name: " + name)
@@ -158,7 +160,9 @@ func (g *gen) group(base, gi int) {
 	case 6:
 		item("name: [a]")
 	case 7:
-		item("name: group0")
+		if gi == 1 {
+			item("name: group0")
+		}
 	}
 	extra := g.choose(site+"extra", "none", "unknown-key", "interval-ok", "interval-bad", "interval-int", "query_offset-ok", "query_offset-bad",
 		"limit-ok", "limit-string", "limit-negative", "labels-ok", "labels-scalar", "labels-badname", "labels-__name__", "labels-intvalue",
@@ -283,6 +287,9 @@ func (g *gen) group(base, gi int) {
 	}
 	if rules == 8 {
 		g.w.line(base+2, "-")
+	}
+	if nameLate {
+		item("name: " + name)
 	}
 	if extra == 34 {
 		// group-level labels written after the rules they apply to
